@@ -1,9 +1,26 @@
 /-
   Props/C12.lean — property theorems for C12 (shuffle).  Helper lemmas live in Lemmas/.
+
+  `sem p rows o` (Layers/Shuffle.lean) is the specification of output partition `o`: the rows of all
+  input partitions whose `tgt` (= `_partitions` value = hash(key) % nout) is `o`, in input order.
+
+    C12_simple / C12_staged(_eq/_ne) / C12_disk / C12_task   run(layer) = (a permutation of) sem
+    C12_split_perm, C12_total(_simple/_staged/_disk)         every row exactly once
+    C12_mem_sem, C12_colocate(_key), C12_cross_frame         co-location, consistency across frames
+  Well-formedness (Closed / Ranked) of the three layers: Lemmas/ShuffleWF.lean.
 -/
 import DxModel.Lemmas.Shuffle
+import DxModel.Lemmas.ShufflePerm
+import DxModel.Lemmas.ShuffleDisk
+import DxModel.Lemmas.ShuffleStaged
+import DxModel.Lemmas.ShuffleWF
+import DxModel.Lemmas.ShuffleExamples
 namespace Dx
 open Shuffle
+
+open C12Ex
+
+/-! ### 1. SimpleShuffle -/
 
 /-- SimpleShuffle: every requested output partition holds exactly the input rows whose target is
     that partition (in input order), for all n_in, n_out and every selection `parts`. -/
@@ -11,5 +28,274 @@ theorem C12_simple (I : Interp) (p : Params) (rows : Nat → List Row) (j : Nat)
     (hparts : ∀ o ∈ p.parts, o < p.nout) (hrows : ∀ i, ∀ r ∈ rows i, r.tgt < p.nout) :
     run I (simpleTask p) (inputs rows) 3 (.out .self j) = .frame (sem p rows p.parts[j]) :=
   run_simple I p rows j hj hparts hrows
+
+example : run I0 (simpleTask pEq) (inputs (rowsMod 5)) 3 (.out .self 1) = .frame (sem pEq (rowsMod 5) 3) :=
+  C12_simple I0 pEq (rowsMod 5) 1 (by decide) (by decide) (rowsMod_lt 5 (by decide))
+
+/-! ### 2. k-way split -/
+
+/-- A k-way split of a list by a key function `< k` is a permutation of the list
+    (`shuffle_group` loses and duplicates nothing). -/
+theorem C12_split_perm {α} (l : List α) (f : α → Nat) (k : Nat) (h : ∀ r ∈ l, f r < k) :
+    ((List.range k).flatMap (fun i => l.filter (fun r => f r == i))).Perm l :=
+  split_perm l f k h
+
+example : ((List.range 3).flatMap (fun i => [5, 1, 3, 2, 4, 0].filter (fun r => r % 3 == i))).Perm
+    [5, 1, 3, 2, 4, 0] :=
+  C12_split_perm [5, 1, 3, 2, 4, 0] (fun r => r % 3) 3 (by decide)
+
+/-! ### 3. staged TaskShuffle -/
+
+/-- Staged TaskShuffle, `nout = nin` (the last stage writes the self-named outputs; with
+    `_filtered` the `_filter` of the last stage is the set of last-stage digits of the selected
+    partitions): output `j` is a permutation of the rows with `tgt = parts[j]`, for every number of
+    stages, fan-out, `nin` and selection. -/
+theorem C12_staged_eq (I : Interp) (p : Params) (rows : Nat → List Row)
+    (harith : stageArithOK p.nin p.stages p.nsplits = true) (heq : p.nout = p.nin)
+    (hparts : ∀ o ∈ p.parts, o < p.nout) (hrows : ∀ i, ∀ r ∈ rows i, r.tgt < p.nout)
+    (j : Nat) (hj : j < p.parts.length) (fuel : Nat) (hfuel : 3 * p.stages + 1 ≤ fuel) :
+    ∃ l, run I (stagedTask p) (inputs rows) fuel (.out .self j) = .frame l ∧
+      l.Perm (sem p rows p.parts[j]) := by
+  simp only [stageArithOK, Bool.and_eq_true, decide_eq_true_eq] at harith
+  obtain ⟨⟨hs, hk2⟩, hle⟩ := harith
+  have hk : 0 < p.nsplits := by omega
+  have ho : p.parts[j] < p.nin := heq ▸ hparts _ (List.getElem_mem hj)
+  refine ⟨_, run_staged_eq I p rows hk hs heq j hj fuel hfuel, ?_⟩
+  refine (stages_sem p rows hk (by omega) hle p.parts[j] (Nat.lt_of_lt_of_le ho hle)).trans
+    (List.Perm.of_eq ?_)
+  unfold sem
+  apply flatMap_congr'
+  intro i _
+  apply List.filter_congr
+  intro r hr
+  have : r.tgt < p.nin := heq ▸ hrows i r hr
+  rw [Nat.mod_eq_of_lt this]
+
+/-- Staged TaskShuffle, `nout ≠ nin` (all stages are named `stage-s` and route by `tgt % nin`;
+    output `j` regroups partition `parts[j] % nin` of the last stage and takes group `parts[j]`).
+    No bound on `parts` / `tgt` and no relation between `nin` and `nout` is needed. -/
+theorem C12_staged_ne (I : Interp) (p : Params) (rows : Nat → List Row)
+    (harith : stageArithOK p.nin p.stages p.nsplits = true) (hne : p.nout ≠ p.nin) (hnin : 0 < p.nin)
+    (j : Nat) (hj : j < p.parts.length) (fuel : Nat) (hfuel : 3 * p.stages + 3 ≤ fuel) :
+    ∃ l, run I (stagedTask p) (inputs rows) fuel (.out .self j) = .frame l ∧
+      l.Perm (sem p rows p.parts[j]) := by
+  simp only [stageArithOK, Bool.and_eq_true, decide_eq_true_eq] at harith
+  obtain ⟨⟨hs, hk2⟩, hle⟩ := harith
+  have hk : 0 < p.nsplits := by omega
+  have hmod : p.parts[j] % p.nin < p.nin := Nat.mod_lt _ hnin
+  refine ⟨_, run_staged_ne I p rows hk hs hne hnin hle j hj fuel hfuel, ?_⟩
+  refine ((stages_sem p rows hk hnin hle _ (Nat.lt_of_lt_of_le hmod hle)).filter _).trans
+    (List.Perm.of_eq ?_)
+  unfold sem
+  rw [List.filter_flatMap]
+  apply flatMap_congr'
+  intro i _
+  rw [List.filter_filter]
+  apply List.filter_congr
+  intro r _
+  by_cases h : r.tgt = p.parts[j]
+  · simp [h]
+  · simp [h]
+
+/-- Staged TaskShuffle (both cases).  Hypotheses: the float stage arithmetic produced `stages ≥ 1`,
+    `nsplits ≥ 2`, `nin ≤ nsplits^stages` (T3-checked); the frame has at least one partition; selected
+    partitions and `_partitions` values are `< nout`.  (`nin ≤ nout`, which `Shuffle._lower`
+    establishes by repartitioning first, is *not* needed for correctness.) -/
+theorem C12_staged (I : Interp) (p : Params) (rows : Nat → List Row)
+    (harith : stageArithOK p.nin p.stages p.nsplits = true) (hnin : 0 < p.nin)
+    (hparts : ∀ o ∈ p.parts, o < p.nout) (hrows : ∀ i, ∀ r ∈ rows i, r.tgt < p.nout)
+    (j : Nat) (hj : j < p.parts.length) (fuel : Nat) (hfuel : 3 * p.stages + 3 ≤ fuel) :
+    ∃ l, run I (stagedTask p) (inputs rows) fuel (.out .self j) = .frame l ∧
+      l.Perm (sem p rows p.parts[j]) := by
+  by_cases heq : p.nout = p.nin
+  · exact C12_staged_eq I p rows harith heq hparts hrows j hj fuel (by omega)
+  · exact C12_staged_ne I p rows harith heq hnin j hj fuel hfuel
+
+example : ∃ l, run I0 (stagedTask pEq) (inputs (rowsMod 5)) 12 (.out .self 0) = .frame l ∧
+    l.Perm (sem pEq (rowsMod 5) 2) :=
+  C12_staged I0 pEq (rowsMod 5) (by decide) (by decide) (by decide) (rowsMod_lt 5 (by decide))
+    0 (by decide) 12 (by decide)
+
+example : ∃ l, run I0 (stagedTask pNe) (inputs (rowsMod 7)) 9 (.out .self 0) = .frame l ∧
+    l.Perm (sem pNe (rowsMod 7) 6) :=
+  C12_staged I0 pNe (rowsMod 7) (by decide) (by decide) (by decide) (rowsMod_lt 7 (by decide))
+    0 (by decide) 9 (by decide)
+
+/-- the conclusion on the concrete instances, by evaluation (fuel bounds are tight: one unit less gives `err`) -/
+example : run I0 (stagedTask pEq) (inputs (rowsMod 5)) 10 (.out .self 0) =
+    .frame [⟨2, 2, 0⟩, ⟨22, 2, 2⟩, ⟨13, 2, 1⟩, ⟨23, 2, 2⟩] := by decide
+example : run I0 (stagedTask pEq) (inputs (rowsMod 5)) 9 (.out .self 0) = .err := by decide
+example : run I0 (stagedTask pNe) (inputs (rowsMod 7)) 9 (.out .self 2) = .frame [⟨21, 4, 2⟩] := by decide
+example : run I0 (stagedTask pNe) (inputs (rowsMod 7)) 8 (.out .self 2) = .err := by decide
+
+example : ∃ l, run I0 (stagedTask pEq) (inputs (rowsMod 5)) 10 (.out .self 2) = .frame l ∧
+    l.Perm (sem pEq (rowsMod 5) 4) :=
+  C12_staged_eq I0 pEq (rowsMod 5) (by decide) rfl (by decide) (rowsMod_lt 5 (by decide))
+    2 (by decide) 10 (by decide)
+
+example : ∃ l, run I0 (stagedTask pNe) (inputs (rowsMod 7)) 9 (.out .self 2) = .frame l ∧
+    l.Perm (sem pNe (rowsMod 7) 4) :=
+  C12_staged_ne I0 pNe (rowsMod 7) (by decide) (by decide) (by decide) 2 (by decide) 9 (by decide)
+
+/-- `TaskShuffle._layer` as a whole (`taskTask` = staged when both `len(_partitions)` and `nin`
+    exceed `max_branch`, the simple layer otherwise). -/
+theorem C12_task (I : Interp) (p : Params) (rows : Nat → List Row)
+    (harith : isStaged p = true → stageArithOK p.nin p.stages p.nsplits = true)
+    (hparts : ∀ o ∈ p.parts, o < p.nout) (hrows : ∀ i, ∀ r ∈ rows i, r.tgt < p.nout)
+    (j : Nat) (hj : j < p.parts.length) (fuel : Nat) (hfuel : 3 * p.stages + 3 ≤ fuel) :
+    ∃ l, run I (taskTask p) (inputs rows) fuel (.out .self j) = .frame l ∧
+      l.Perm (sem p rows p.parts[j]) := by
+  unfold taskTask
+  cases hst : isStaged p with
+  | true =>
+    have hnin : 0 < p.nin := by
+      simp only [isStaged, Bool.not_eq_true', Bool.or_eq_false_iff, decide_eq_false_iff_not] at hst
+      omega
+    simpa using C12_staged I p rows (harith hst) hnin hparts hrows j hj fuel hfuel
+  | false =>
+    refine ⟨_, ?_, List.Perm.refl _⟩
+    have h3 := run_simple I p rows j hj hparts hrows
+    have := run_stable I (simpleTask p) (inputs rows) (simpleRank) (simple_ranked p) 3 (.out .self j)
+      (by simp [simpleRank]) fuel (by omega)
+    simpa [this] using h3
+
+example : ∃ l, run I0 (taskTask pEq) (inputs (rowsMod 5)) 12 (.out .self 0) = .frame l ∧
+    l.Perm (sem pEq (rowsMod 5) 2) :=
+  C12_task I0 pEq (rowsMod 5) (fun _ => by decide) (by decide) (rowsMod_lt 5 (by decide))
+    0 (by decide) 12 (by decide)
+
+/-! ### 4. DiskShuffle -/
+
+/-- DiskShuffle: once every input partition has been written (`barrier`), `collect` of output `j`
+    returns exactly the rows with `tgt = parts[j]`, for all `nin`, `nout`, selections. -/
+theorem C12_disk (I : Interp) (p : Params) (rows : Nat → List Row) (j : Nat) (hj : j < p.parts.length)
+    (fuel : Nat) (hfuel : 3 ≤ fuel) :
+    run I (diskTask p) (inputs rows) fuel (.out .self j) = .frame (sem p rows p.parts[j]) := by
+  obtain ⟨n, rfl⟩ : ∃ n, fuel = n + 3 := ⟨fuel - 3, by omega⟩
+  exact run_disk I p rows j hj n
+
+example : run I0 (diskTask pNe) (inputs (rowsMod 7)) 3 (.out .self 1) = .frame (sem pNe (rowsMod 7) 0) :=
+  C12_disk I0 pNe (rowsMod 7) 1 (by decide) 3 (by decide)
+
+/-! ### 5. every row exactly once -/
+
+/-- The `nout` semantic output partitions together are a permutation of all input rows. -/
+theorem C12_total (p : Params) (rows : Nat → List Row) (hrows : ∀ i, ∀ r ∈ rows i, r.tgt < p.nout) :
+    ((List.range p.nout).flatMap (fun o => sem p rows o)).Perm ((List.range p.nin).flatMap rows) :=
+  sem_total p rows hrows
+
+example : ((List.range 7).flatMap (fun o => sem pNe (rowsMod 7) o)).Perm ((List.range 3).flatMap (rowsMod 7)) :=
+  C12_total pNe (rowsMod 7) (rowsMod_lt 7 (by decide))
+
+/-- Unfiltered SimpleShuffle: the concatenation of all outputs is a permutation of the concatenation
+    of all inputs. -/
+theorem C12_total_simple (I : Interp) (p : Params) (rows : Nat → List Row)
+    (hp : p.parts = List.range p.nout) (hrows : ∀ i, ∀ r ∈ rows i, r.tgt < p.nout) :
+    ∃ l, concatV ((List.range p.nout).map (fun j => run I (simpleTask p) (inputs rows) 3 (.out .self j))) =
+      .frame l ∧ l.Perm ((List.range p.nin).flatMap rows) := by
+  apply outputs_total p rows hrows
+  intro j hj
+  obtain ⟨h, e⟩ := parts_range p hp j hj
+  exact ⟨_, C12_simple I p rows j h (parts_range_lt p hp) hrows, by rw [e]⟩
+
+example : ∃ l, concatV ((List.range 5).map (fun j => run I0 (simpleTask pEqAll) (inputs (rowsMod 5)) 3
+    (.out .self j))) = .frame l ∧ l.Perm ((List.range 5).flatMap (rowsMod 5)) :=
+  C12_total_simple I0 pEqAll (rowsMod 5) rfl (rowsMod_lt 5 (by decide))
+
+/-- Unfiltered staged TaskShuffle: all outputs together are a permutation of all inputs. -/
+theorem C12_total_staged (I : Interp) (p : Params) (rows : Nat → List Row)
+    (harith : stageArithOK p.nin p.stages p.nsplits = true) (hnin : 0 < p.nin)
+    (hp : p.parts = List.range p.nout) (hrows : ∀ i, ∀ r ∈ rows i, r.tgt < p.nout)
+    (fuel : Nat) (hfuel : 3 * p.stages + 3 ≤ fuel) :
+    ∃ l, concatV ((List.range p.nout).map (fun j => run I (stagedTask p) (inputs rows) fuel (.out .self j))) =
+      .frame l ∧ l.Perm ((List.range p.nin).flatMap rows) := by
+  apply outputs_total p rows hrows
+  intro j hj
+  obtain ⟨h, e⟩ := parts_range p hp j hj
+  obtain ⟨l, hl, hperm⟩ := C12_staged I p rows harith hnin (parts_range_lt p hp) hrows j h fuel hfuel
+  exact ⟨l, hl, by rw [← e]; exact hperm⟩
+
+example : ∃ l, concatV ((List.range 5).map (fun j => run I0 (stagedTask pEqAll) (inputs (rowsMod 5)) 12
+    (.out .self j))) = .frame l ∧ l.Perm ((List.range 5).flatMap (rowsMod 5)) :=
+  C12_total_staged I0 pEqAll (rowsMod 5) (by decide) (by decide) rfl (rowsMod_lt 5 (by decide)) 12 (by decide)
+
+example : ∃ l, concatV ((List.range 7).map (fun j => run I0 (stagedTask pNeAll) (inputs (rowsMod 7)) 9
+    (.out .self j))) = .frame l ∧ l.Perm ((List.range 3).flatMap (rowsMod 7)) :=
+  C12_total_staged I0 pNeAll (rowsMod 7) (by decide) (by decide) rfl (rowsMod_lt 7 (by decide)) 9 (by decide)
+
+/-- Unfiltered DiskShuffle: all outputs together are a permutation of all inputs. -/
+theorem C12_total_disk (I : Interp) (p : Params) (rows : Nat → List Row)
+    (hp : p.parts = List.range p.nout) (hrows : ∀ i, ∀ r ∈ rows i, r.tgt < p.nout)
+    (fuel : Nat) (hfuel : 3 ≤ fuel) :
+    ∃ l, concatV ((List.range p.nout).map (fun j => run I (diskTask p) (inputs rows) fuel (.out .self j))) =
+      .frame l ∧ l.Perm ((List.range p.nin).flatMap rows) := by
+  apply outputs_total p rows hrows
+  intro j hj
+  obtain ⟨h, e⟩ := parts_range p hp j hj
+  exact ⟨_, C12_disk I p rows j h fuel hfuel, by rw [e]⟩
+
+example : ∃ l, concatV ((List.range 7).map (fun j => run I0 (diskTask pNeAll) (inputs (rowsMod 7)) 3
+    (.out .self j))) = .frame l ∧ l.Perm ((List.range 3).flatMap (rowsMod 7)) :=
+  C12_total_disk I0 pNeAll (rowsMod 7) rfl (rowsMod_lt 7 (by decide)) 3 (by decide)
+
+/-! ### 6. co-location and consistency across frames -/
+
+/-- membership in a semantic output partition -/
+theorem C12_mem_sem (p : Params) (rows : Nat → List Row) (o : Nat) (r : Row) :
+    r ∈ sem p rows o ↔ (∃ i, i < p.nin ∧ r ∈ rows i) ∧ r.tgt = o := by
+  simp only [sem, List.mem_flatMap, List.mem_range, List.mem_filter, beq_iff_eq]
+  constructor
+  · rintro ⟨i, hi, hr, ht⟩; exact ⟨⟨i, hi, hr⟩, ht⟩
+  · rintro ⟨⟨i, hi, hr⟩, ht⟩; exact ⟨i, hi, hr, ht⟩
+
+example : (⟨11, 3, 1⟩ : Row) ∈ sem pEq (rowsMod 5) 3 :=
+  (C12_mem_sem pEq (rowsMod 5) 3 ⟨11, 3, 1⟩).mpr ⟨⟨1, by decide, by decide⟩, rfl⟩
+
+/-- Rows with equal `_partitions` value lie in the same output partition. -/
+theorem C12_colocate (p : Params) (rows : Nat → List Row) (o₁ o₂ : Nat) (r₁ r₂ : Row)
+    (h₁ : r₁ ∈ sem p rows o₁) (h₂ : r₂ ∈ sem p rows o₂) (heq : r₁.tgt = r₂.tgt) : o₁ = o₂ := by
+  rw [← ((C12_mem_sem p rows o₁ r₁).mp h₁).2, ← ((C12_mem_sem p rows o₂ r₂).mp h₂).2, heq]
+
+example : ∀ o, (⟨3, 3, 0⟩ : Row) ∈ sem pEq (rowsMod 5) 3 → (⟨11, 3, 1⟩ : Row) ∈ sem pEq (rowsMod 5) o → 3 = o :=
+  fun o h₁ h₂ => C12_colocate pEq (rowsMod 5) 3 o _ _ h₁ h₂ rfl
+
+/-- Rows with equal key lie in the same output partition, when `_partitions = h(key) % nout` for one
+    function `h` of the key value (what `AssignPartitioningIndex` computes; T4-validated). -/
+theorem C12_colocate_key {κ : Type} (p : Params) (rows : Nat → List Row) (key : Row → κ) (h : κ → Nat)
+    (hassign : ∀ i, ∀ r ∈ rows i, r.tgt = h (key r) % p.nout)
+    (o₁ o₂ : Nat) (r₁ r₂ : Row) (h₁ : r₁ ∈ sem p rows o₁) (h₂ : r₂ ∈ sem p rows o₂)
+    (heq : key r₁ = key r₂) : o₁ = o₂ := by
+  obtain ⟨⟨i₁, _, m₁⟩, _⟩ := (C12_mem_sem p rows o₁ r₁).mp h₁
+  obtain ⟨⟨i₂, _, m₂⟩, _⟩ := (C12_mem_sem p rows o₂ r₂).mp h₂
+  apply C12_colocate p rows o₁ o₂ r₁ r₂ h₁ h₂
+  rw [hassign i₁ r₁ m₁, hassign i₂ r₂ m₂, heq]
+
+example : ∀ o₁ o₂ r₁ r₂, r₁ ∈ sem pNe (fun i => [⟨i, (3 * i) % 7, i⟩]) o₁ →
+    r₂ ∈ sem pNe (fun i => [⟨i, (3 * i) % 7, i⟩]) o₂ → r₁.pay = r₂.pay → o₁ = o₂ :=
+  fun o₁ o₂ r₁ r₂ => C12_colocate_key pNe (fun i => [⟨i, (3 * i) % 7, i⟩]) (fun r => r.pay) (fun k => 3 * k)
+    (by intro i r hr; simp only [List.mem_singleton] at hr; subst hr; rfl) o₁ o₂ r₁ r₂
+
+/-- Two frames (any partition counts, any shuffle implementation satisfying `sem`) shuffled to the same
+    `nout` with the partition number `h(key) % nout` for one function `h` of the (cast) key value put
+    equal keys into equal partition numbers — the fact partition-wise joins rely on. -/
+theorem C12_cross_frame {κ : Type} (p₁ p₂ : Params) (rows₁ rows₂ : Nat → List Row)
+    (key₁ key₂ : Row → κ) (h : κ → Nat) (hn : p₁.nout = p₂.nout)
+    (ha₁ : ∀ i, ∀ r ∈ rows₁ i, r.tgt = h (key₁ r) % p₁.nout)
+    (ha₂ : ∀ i, ∀ r ∈ rows₂ i, r.tgt = h (key₂ r) % p₂.nout)
+    (o₁ o₂ : Nat) (r₁ r₂ : Row) (h₁ : r₁ ∈ sem p₁ rows₁ o₁) (h₂ : r₂ ∈ sem p₂ rows₂ o₂)
+    (heq : key₁ r₁ = key₂ r₂) : o₁ = o₂ := by
+  obtain ⟨⟨i₁, _, m₁⟩, t₁⟩ := (C12_mem_sem p₁ rows₁ o₁ r₁).mp h₁
+  obtain ⟨⟨i₂, _, m₂⟩, t₂⟩ := (C12_mem_sem p₂ rows₂ o₂ r₂).mp h₂
+  rw [← t₁, ← t₂, ha₁ i₁ r₁ m₁, ha₂ i₂ r₂ m₂, heq, hn]
+
+example : ∀ o₁ o₂ r₁ r₂, r₁ ∈ sem pNe (fun i => [⟨i, (3 * i) % 7, i⟩]) o₁ →
+    r₂ ∈ sem pNeAll (fun i => [⟨0, (3 * (i + 1)) % 7, 5 * i⟩]) o₂ → r₁.pay = r₂.pay / 5 + 1 → o₁ = o₂ :=
+  fun o₁ o₂ r₁ r₂ => C12_cross_frame pNe pNeAll (fun i => [⟨i, (3 * i) % 7, i⟩])
+    (fun i => [⟨0, (3 * (i + 1)) % 7, 5 * i⟩]) (fun r => r.pay) (fun r => r.pay / 5 + 1) (fun k => 3 * k) rfl
+    (by intro i r hr; simp only [List.mem_singleton] at hr; subst hr; rfl)
+    (by intro i r hr; simp only [List.mem_singleton] at hr; subst hr
+        show 3 * (i + 1) % 7 = 3 * (5 * i / 5 + 1) % 7
+        rw [Nat.mul_div_cancel_left i (by decide : 0 < 5)])
+    o₁ o₂ r₁ r₂
 
 end Dx
